@@ -352,6 +352,20 @@ fn refusals_and_passthrough(rep: &Report) {
             Err(p) => rep.violation(&format!("panic: {}", panic_class(&p)), json!({"kind": "refusal", "text": text, "panic": p})),
         }
     }
+    // the position of proj= in its step is free, and must not reorder the other parameters (the last of repeated keys wins)
+    for (proj, geo) in [
+        ("x=100 x=200 proj=helmert", "helmert x=100 x=200"),
+        ("x=100 proj=helmert x=200", "helmert x=100 x=200"),
+        ("x=100 y=5 x=200 z=1 proj=helmert", "helmert x=100 y=5 x=200 z=1"),
+        ("proj=pipeline step x=1 y=2 x=3 proj=helmert step proj=noop", "helmert x=1 y=2 x=3 | noop"),
+        ("+proj=pipeline +step +zone=33 +zone=32 +proj=utm +step +order=2,1 +proj=axisswap", "utm zone=33 zone=32 | axisswap order=2,1"),
+    ] {
+        rep.eval(1);
+        let (a, b) = (fp_of(&mut Plain::default(), proj), fp_of(&mut Minimal::default(), geo));
+        if a != b || a.is_err() {
+            rep.violation("PROJ string behaves differently from its Geodesy counterpart / proj= not first in its step, repeated key", json!({"kind": "proj", "proj": proj, "counterpart": geo, "translated": parse_proj(proj).ok()}));
+        }
+    }
     // non-PROJ text: literally unchanged when it does not contain "proj", behaviourally otherwise
     let texts = [
         "utm zone=32",
